@@ -13,6 +13,7 @@ import (
 	"crypto/sha256"
 	"io"
 	"os"
+	"path"
 	"sort"
 
 	"github.com/ipfs/go-unixfsnode/data/builder"
@@ -94,6 +95,8 @@ type c18gen struct {
 	c       *Ctx
 	recipes VL
 	last    *stree // previous regular file (for duplicates)
+	spell   int    // spelling of the source argument (directory sources only), see c18Spellings
+	multi   bool   // pass every top-level entry of the tree as its own source argument
 	nodes   int
 	feat    map[string]bool
 	maxDep  int
@@ -237,6 +240,11 @@ func (g *c18gen) emitTree(t *stree, p VL, fs *VL) Val {
 	}
 }
 
+// spellings of the source argument "src/<top>" of `car create`; the wrapping entry is named
+// path.Base(argument) by the tool, which is <top> for all of them except "src/<top>/." (".": the
+// contents then land directly in the output directory, as with --no-wrap)
+var c18Spellings = []string{"src/%", "/SB/src/%", "src/%/", "./src/%", "src//%", "src/../src/%", "/SB/src/%/", "./src/%//", "src/./%", "src/%/."}
+
 func c18Case(c *Ctx, g *c18gen, top []byte, t *stree, version uint64, nowrap bool, mode uint64, absSrc, absOut bool, label string) {
 	fs := VL{fsDir(), fsDir("src"), fsDir("out")}
 	srcPath := VL{VB(sbName), VB([]byte("src")), VB(top)}
@@ -268,12 +276,45 @@ func c18Case(c *Ctx, g *c18gen, top []byte, t *stree, version uint64, nowrap boo
 	if absSrc {
 		srcArg = append([]byte("/SB/src/"), top...)
 	}
+	var srcArgV Val = VB(srcArg)
+	if t.kind == 'd' && g.spell > 0 && !g.multi {
+		sp := c18Spellings[g.spell%len(c18Spellings)]
+		srcArg = bytes.Replace([]byte(sp), []byte("%"), top, 1)
+		srcArgV = VB(srcArg)
+		c.Count("source-spelling:" + sp)
+		if !nowrap {
+			if nm := path.Base(string(srcArg)); nm != string(top) {
+				// "src/<top>/.": the entry is named "."
+				roots = VL{VL{VT("n"), VL{VT("d"), VL{VL{VB([]byte(nm)), u}}}}}
+				dst = outP
+			}
+		}
+	}
+	if g.multi && t.kind == 'd' && !nowrap && len(t.ents) > 0 {
+		// every top-level entry is a source of its own: the archive's root lists them all
+		srcPath = VL{VB(sbName), VB([]byte("src")), VB(top)}
+		args := VL{}
+		ents := append([]sent{}, t.ents...)
+		// (argument order is not name order)
+		for i := len(ents) - 1; i >= 0; i-- {
+			a := append(append([]byte("src/"), top...), '/')
+			a = append(a, ents[i].name...)
+			if ents[i].t.kind == 'd' && i%2 == 0 {
+				a = append(a, '/')
+			}
+			args = append(args, VB(a))
+		}
+		srcArgV = args
+		roots = VL{VL{VT("n"), u}}
+		dst = outP
+		c.Count("source-spelling:multiple-sources")
+	}
 	outdir := []byte("out")
 	if absOut {
 		outdir = []byte("/SB/out")
 	}
 	opts := VL{VN(version), vbool(nowrap), VN(mode)}
-	in := VL{fs, VL{VB(sbName)}, VB(outdir), VB(nil), roots, opts, VL{VB(srcArg), g.recipes}, srcPath, dst}
+	in := VL{fs, VL{VB(sbName)}, VB(outdir), VB(nil), roots, opts, VL{srcArgV, g.recipes}, srcPath, dst}
 	obs := runCreateExtractCase(c, in)
 	c.Count("kind:" + label)
 	c.Count("version:" + string(rune('0'+version)))
@@ -309,15 +350,39 @@ func init() {
 						{[]byte("a.txt"), &stree{kind: 'f', data: []byte("hello")}},
 						{[]byte("empty"), &stree{kind: 'f'}},
 						{[]byte("sub"), &stree{kind: 'd', ents: []sent{
-							{[]byte("deep"), &stree{kind: 'd', ents: []sent{{[]byte("x"), &stree{kind: 'f', data: []byte("x")}}}}},
+							{[]byte("deep"), &stree{kind: 'd', ents: []sent{{[]byte("x"), &stree{kind: 'f', data: []byte("x")}}, {[]byte("deeper-empty"), &stree{kind: 'd'}}}}},
+							{[]byte("empty-in-sub"), &stree{kind: 'd', ents: []sent{{[]byte("only-an-empty-dir"), &stree{kind: 'd'}}}}},
 							{[]byte("lnk"), &stree{kind: 'l', data: []byte("../a.txt")}},
 						}}},
 						{[]byte("emptydir"), &stree{kind: 'd'}},
 					}}
-					g.nodes = 8
+					g.nodes = 11
 					c18Case(c, g, []byte("top"), t, version, nowrap, mode, false, false, "directed:matrix")
 				}
 			}
+		}
+		// ---- spellings of the source argument (trailing separator, ./, //, dir/.., absolute, dir/.) and
+		// several source arguments; the expected tree comes from the tool's documented rule
+		// (entry named path.Base(argument))
+		small := func() *stree {
+			return &stree{kind: 'd', ents: []sent{
+				{[]byte("p1.jpg"), &stree{kind: 'f', data: []byte("one")}},
+				{[]byte("album"), &stree{kind: 'd', ents: []sent{{[]byte("p2.jpg"), &stree{kind: 'f', data: []byte("two")}}, {[]byte("empty"), &stree{kind: 'd'}}}}},
+				{[]byte("latest"), &stree{kind: 'l', data: []byte("album/p2.jpg")}},
+				{[]byte("nothing-here"), &stree{kind: 'd'}},
+			}}
+		}
+		for sp := 1; sp < len(c18Spellings); sp++ {
+			for _, nowrap := range []bool{false, true} {
+				g := &c18gen{r: r.Fork(), c: c, feat: map[string]bool{"source-spelling": true, "empty-dir": true, "symlink": true}, maxDep: 3, spell: sp}
+				g.nodes = 7
+				c18Case(c, g, []byte("photos"), small(), 1+uint64(sp%2), nowrap, uint64(sp%3), false, sp%2 == 0, "directed:source-spelling")
+			}
+		}
+		for k := 0; k < 3; k++ {
+			g := &c18gen{r: r.Fork(), c: c, feat: map[string]bool{"multiple-sources": true, "empty-dir": true, "symlink": true}, maxDep: 3, multi: true}
+			g.nodes = 7
+			c18Case(c, g, []byte("photos"), small(), 1+uint64(k%2), false, uint64(k), false, false, "directed:multiple-sources")
 		}
 		// the Coq example rt_tree (proofs/ExtractFsRoundTrip.v): a:"hi", d/{l -> ../a, a:""}
 		for mode := uint64(0); mode < 3; mode++ {
@@ -427,6 +492,42 @@ func init() {
 			used := map[string]bool{}
 			top := g.name(used)
 			t := g.tree(0, gr.Chance(85))
+			if t.kind == 'd' && gr.Chance(50) {
+				// an empty directory somewhere (at a random depth)
+				g.feat["empty-dir"] = true
+				d := t
+				for {
+					var subs []*stree
+					for _, e := range d.ents {
+						if e.t.kind == 'd' && len(e.t.ents) > 0 {
+							subs = append(subs, e.t)
+						}
+					}
+					if len(subs) == 0 || gr.Chance(35) {
+						break
+					}
+					d = pick(gr, subs)
+				}
+				nm := "empty-dir-here"
+				ok := true
+				for _, e := range d.ents {
+					if string(e.name) == nm {
+						ok = false
+					}
+				}
+				if ok {
+					d.ents = append(d.ents, sent{[]byte(nm), &stree{kind: 'd'}})
+					g.nodes++
+				}
+			}
+			if t.kind == 'd' && gr.Chance(40) {
+				g.spell = 1 + gr.Intn(len(c18Spellings)-1)
+				g.feat["source-spelling"] = true
+			}
+			if t.kind == 'd' && len(t.ents) > 0 && gr.Chance(12) {
+				g.multi = true
+				g.feat["multiple-sources"] = true
+			}
 			if t.kind == 'd' && gr.Chance(15) {
 				// files whose bytes are the dag-pb node of a sibling (same multihash, other codec)
 				g.feat["same-multihash-different-codec"] = true
